@@ -29,7 +29,7 @@ def run_property(mod, ctx, only=None, do_hunt=True):
     for part in spec["crates"]:
         crate = core.Crate(pid, part.get("variant", "main"),
                            features=part.get("features", ("std", "devices", "dim_check_release")),
-                           extra_deps=part.get("extra_deps", ""))
+                           extra_deps=part.get("extra_deps", ""), rrtk_dep=part.get("rrtk_dep"))
         hs = part["harnesses"]
         if only:
             hs = [h for h in hs if re.search(only, h.name)]
@@ -85,6 +85,11 @@ def run_property(mod, ctx, only=None, do_hunt=True):
                     violations.append((r, out))
             else:
                 inconclusive.append((r, out.get("why", "")))
+    if spec.get("cleanup"):
+        try:
+            spec["cleanup"]()
+        except Exception as e:  # noqa
+            sys.stderr.write("cleanup failed: %r\n" % (e,))
     wall = time.time() - t0
     for r, k in known_hits:
         print("KNOWN-FINDING: property=%s %s (%s)" % (pid, k["what"], r.key()))
